@@ -136,6 +136,7 @@ def sub : Nat := 509
 def mul : Nat := 510
 -- more names
 def S.static_text : Nat := 305
+def S.from_raw : Nat := 315
 def S.into_raw : Nat := 306
 def range : Nat := 21
 def find : Nat := 118
@@ -146,6 +147,10 @@ def resolve : Nat := 238
 def deref : Nat := 119
 def as_child : Nat := 253
 def next : Nat := 254
+def next_child_or_token_after : Nat := 260
+def prev_child_or_token_before : Nat := 261
+def nth : Nat := 262
+def as_token : Nat := 263
 def children_from : Nat := 258
 def children_to : Nat := 259
 def get_or_add_element : Nat := 256
